@@ -92,6 +92,8 @@ impl Driver {
                                     .translate_function(state.memory(), address)
                                     .map_err(|e| Error::ExecutorLiftFail(address, Box::new(e)))?;
                                 let mut program = self.program.clone();
+                                #[cfg(feature = "falcon_verif")]
+                                crate::verif::point("driver::add_function");
                                 RC::make_mut(&mut program).add_function(function);
                                 let location: il::ProgramLocation =
                                     il::RefProgramLocation::from_address(&program, address)
